@@ -241,6 +241,8 @@ public:
         }
         return r;
     }
+    // as in Qt (unless QT_NO_CAST_FROM_ASCII): assignment from a NUL-terminated UTF-8 string
+    QString &operator=(const char *utf8) { d = fromUtf8(utf8).d; return *this; }
     bool isEmpty() const { return d.empty(); }
     int size() const { return (int)d.size(); }
     friend QString operator+(const QString &a, const QString &b) { return QString(a.d + b.d); }
